@@ -118,6 +118,7 @@ type Frame struct {
 	mapRange   map[ssa.Value]*mapRangeInfo
 	curSt      *State
 	curBlock   *ssa.BasicBlock
+	curInstr   ssa.Instruction
 	headerFlag map[*ssa.BasicBlock]Term
 }
 
@@ -156,6 +157,7 @@ type FuncEnc struct {
 	bvOffsets map[string]bvOffset
 	consts    map[string]bool
 	entryMeasure []Term
+	checkOnly    bool // emit obligations without assuming them afterwards
 	defAt     map[string]int
 	usedIn    map[string][]int
 	trigIn    map[string][]int
@@ -338,7 +340,10 @@ func (fe *FuncEnc) emit1(kind, label string, path, goal Term, clause string, pos
 	o := &Obl{Name: fe.name + "/" + kind + ":" + full, Func: fe.name, Kind: kind, Label: full, Pos: len(fe.items), Goal: g,
 		Clause: clause, SrcPos: fe.eng.relPos(pos), fe: fe}
 	fe.obls = append(fe.obls, o)
-	// assert-then-assume
+	// assert-then-assume (not for obligations marked check-only: an undischargeable one must not make the rest vacuous)
+	if fe.checkOnly {
+		return
+	}
 	fe.items = append(fe.items, Item{Text: "(assert " + g.S + ")", Guard: path.S})
 }
 
